@@ -160,6 +160,12 @@ package generator
 //       ensures docStrMember(doc, k) == value(V) && V accepts doc ==> err == nil && only c.V is set, to V's decoded value
 //       ensures docStrMember(doc, k) == value(V) && V rejects doc ==> err != nil;  no table entry ==> err != nil
 //     without discriminator: ensures the first accepting variant (in schema order) is the one set; err != nil iff none accepts
+//   emitted func (X).MarshalJSON() / (*X).UnmarshalJSON(bs)   [date-time components: type X time.Time]   family json-time-component
+//     at every call of Time.Format / AppendFormat / time.Parse / ParseInLocation:  layout == declaredLayout(schema X)   [C06, C07, C08, C18]
+//       declaredLayout = the value of x-goag-go-time-format (a constant of package time or a string literal), RFC 3339 (time.RFC3339Nano) without it:
+//       the layout the inline copy of the same schema is specified with (valueOK / decode terms)
+//     a call of Time.MarshalJSON / MarshalText / UnmarshalJSON / UnmarshalText counts as layout RFC 3339
+//     (thin: that the formatted text is what is handed to json.Marshal, and the parsed value what is stored, stays assumed)
 //   lemma roundtrip(T): from the two contracts and the wire assumptions, decode(encode(v)) is v, member by member [C06]
 
 //@ emitted func (*).marshalJSONInnerBody*(out io.Writer) error
